@@ -7791,7 +7791,9 @@ class Subpath:
             e -= 1
         start = self.index_to_path_index(start)
         end = self.index_to_path_index(end)
-        self._path._validate_connection(start - 1, prefer_second=True)
+        if start > 0 and isinstance(segments[start - 1], Move):
+            # The move remains in place but now leads to the new first point.
+            self._path._validate_connection(start - 1, prefer_second=True)
         self._path._validate_connection(end)
 
     def reverse(self):
